@@ -3,6 +3,7 @@
 //   list file lines: <base dir> <nuclide> <process g0|g2|g22|g4> <has_pdf 0|1>
 // Output: one JSON line per dataset (decoded tables are dumped for the Python-side comparison with the encoder's values).
 #include <cmath>
+#include <clocale>
 #include <cstdlib>
 #include <fstream>
 #include <set>
@@ -13,6 +14,23 @@
 #include <bxdecay0/particle_utils.h>
 
 #include "diffcore_port.h"
+
+// The process's C numeric locale while the library reads a dataset (VERIF_LOCALE names a locale reachable through LOCPATH, e.g. one
+// with a decimal comma, as any GUI application that calls setlocale(LC_ALL, "") under such a LANG has): the documented table format is
+// locale-independent.  Only the library calls are wrapped - this harness prints its own numbers in the C locale.
+static long g_locale_switches = 0;
+struct NumericLocale
+{
+  NumericLocale()
+  {
+    const char * l = getenv("VERIF_LOCALE");
+    if (l != nullptr && *l) {
+      if (setlocale(LC_NUMERIC, l) != nullptr) g_locale_switches++;
+      else g_locale_switches = -1000000;
+    }
+  }
+  ~NumericLocale() { setlocale(LC_NUMERIC, "C"); }
+};
 
 using namespace verif;
 using bxdecay0::dbd_gA;
@@ -80,7 +98,10 @@ int main(int argc, char ** argv)
         }
         std::vector<double> a;
         try {
-          bxdecay0::load_optimized_cdf_array(l, a);
+          {
+            NumericLocale nl;
+            bxdecay0::load_optimized_cdf_array(l, a);
+          }
         } catch (std::exception & x) {
           fail("decode|exception", x.what());
         }
@@ -109,6 +130,7 @@ int main(int argc, char ** argv)
         g.set_process(proc_of(proc));
         g.set_shooting(dbd_gA::SHOOTING_INVERSE_TRANSFORM_METHOD);
         if (verif_debug_flags()) g.set_debug(true);
+        NumericLocale nl;
         g.initialize();
       } catch (std::exception & x) {
         fail("initialize|inverse-transform", x.what());
@@ -229,6 +251,7 @@ int main(int argc, char ** argv)
             reused.set_nuclide(nuc);
             reused.set_process(proc_of(proc));
             reused.set_shooting(dbd_gA::SHOOTING_INVERSE_TRANSFORM_METHOD);
+            NumericLocale nl;
             reused.initialize();
             Rng r2(seed, hash_str(lab) + 5);
             for (int k = 0; k < 400 && exc.empty(); k++) {
@@ -258,6 +281,7 @@ int main(int argc, char ** argv)
           g2.set_process(proc_of(proc));
           g2.set_shooting(dbd_gA::SHOOTING_REJECTION);
           if (verif_debug_flags()) g2.set_debug(true);
+          NumericLocale nl;
           g2.initialize();
         } catch (std::exception & x) {
           fail("initialize|rejection", x.what());
@@ -291,7 +315,8 @@ int main(int argc, char ** argv)
     } else {
       fail("decode|shape", fmt("decoded %zu arrays for %d energy samples", arrays.size(), n));
     }
-    fprintf(OUT, "{\"dataset\":%s,\"n\":%d,\"esum\":%s,\"emin\":%s,\"emax\":%s,\"samples\":%ld,\"events\":%ld,\"flat_runs\":%ld,\"cells\":%zu,\"sample\":%s,\"decoded\":%s,", jstr(lab).c_str(), n,
+    fprintf(OUT, "{\"locale_switches\":%ld,", g_locale_switches);
+    fprintf(OUT, "\"dataset\":%s,\"n\":%d,\"esum\":%s,\"emin\":%s,\"emax\":%s,\"samples\":%ld,\"events\":%ld,\"flat_runs\":%ld,\"cells\":%zu,\"sample\":%s,\"decoded\":%s,", jstr(lab).c_str(), n,
             jnum(esum).c_str(), jnum(emin).c_str(), jnum(emax).c_str(), samples, events, flat_runs, cells.size(), sample.empty() ? "null" : sample.c_str(), dump.c_str());
     emit_mismatches(OUT, "mismatches", mm);
     fprintf(OUT, "}\n");
